@@ -406,7 +406,7 @@ type Query struct {
 	// []interface{}.
 	Matrix []interface{}
 	// Codes is a list whose members are declared non-null.
-	Codes []interface{}
+	Codes  []interface{}
 	Stamps []interface{}
 	Levels []interface{}
 	// Chief is served by a second Go struct for the GraphQL type Keeper (other
